@@ -73,8 +73,11 @@ def build(spec, tmpdir):
             ds = c08.PassW(ds)
         elif layer == "subset":
             ds = KDSubset(ds, list(range(len(ds)))[::-1])
-        elif layer == "concat":
-            ds = KDConcatDataset([ds, c08.ImgRoot(2, 1, "img")])
+        elif layer in ("concat", "concat_rev"):
+            from kappadata.transforms import KDRandomHorizontalFlip
+            from kappadata.wrappers import XTransformWrapper
+            other = XTransformWrapper(c08.ImgRoot(2, 1, "img"), transform=KDRandomHorizontalFlip(p=0.5))
+            ds = KDConcatDataset([ds, other] if layer == "concat" else [other, ds])
         elif layer == "mode":
             from kappadata.wrappers import ModeWrapper
             ds = ModeWrapper(ds, mode="x", return_ctx=False)
@@ -128,6 +131,9 @@ def check(spec):
             template = build(spec, tmpdir)
         except AssertionError:
             raise Refused("constructor assertion")
+        if spec.get("pre_init") is not None:
+            # the hook may also be run by hand in the main process (e.g. to load one sample) before workers are spawned
+            _init(template, spec["pre_init"], spec["rank"])
         base = _states(template)
         if not base and spec["w"]["kind"] != "mix":
             raise Refused("no generator reachable")
@@ -188,6 +194,8 @@ def check_real_workers(spec):
         raise Refused("constructor assertion")
     if not _states(ds):
         raise Refused("no generator reachable")
+    if spec.get("pre_init") is not None:
+        _init(ds, spec["pre_init"], 0)
     mw = ModeWrapper(DigestWrapper(ds), mode="digest")
 
     def run():
@@ -229,7 +237,8 @@ def stack(draw, tier, for_real=False):
         w["t"] = draw(WITHSCHED)
         w["fam"] = treg.family(w["t"])
     elif kind == "multiview":
-        w["configs"] = [{"n_views": draw(st.integers(1, 2)), "t": draw(WITHSCHED)} for _ in range(draw(st.integers(1, 3)))]
+        w["configs"] = [{"n_views": draw(st.integers(1, 2)), "t": draw(st.one_of(WITHSCHED, WITHSCHED, st.just("plain")))}
+                        for _ in range(draw(st.integers(1, 3)))]
         w["fam"] = "img3"
     elif kind == "mix":
         w.update(p=1.0, alpha=1.0, fam="img3", pos=draw(st.sampled_from(["top", "over_subset"])))
@@ -246,14 +255,15 @@ def stack(draw, tier, for_real=False):
         w["collators"] = draw(st.lists(st.sampled_from(names), min_size=1, max_size=3))
     elif kind != "imagefolder" and draw(st.integers(0, 2)) == 0:
         w["collators"] = draw(st.lists(st.sampled_from(names), min_size=1, max_size=2))
-    top = draw(st.lists(st.sampled_from(["pass", "subset", "concat", "mode", "interleaved"]), max_size=2))
+    top = draw(st.lists(st.sampled_from(["pass", "subset", "concat", "concat_rev", "mode", "interleaved"]), max_size=2))
     if "mode" in top or "interleaved" in top:
         # ModeWrapper / the scheduler's dataset are always outermost
         top = [t for t in top if t not in ("mode", "interleaved")] + [next(t for t in top if t in ("mode", "interleaved"))]
     if kind in ("mix", "semseg") and "mode" in top:
         top = ["mode"]
     return {"w": w, "top": top, "g0": draw(st.integers(0, 999)), "seed_a": draw(st.integers(0, 2 ** 31 - 1)),
-            "seed_b": draw(st.integers(0, 2 ** 31 - 1)), "rank": draw(st.integers(0, 3))}
+            "seed_b": draw(st.integers(0, 2 ** 31 - 1)), "rank": draw(st.integers(0, 3)),
+            "pre_init": draw(st.sampled_from([None, None, 7, 12345]))}
 
 
 def _distinct(s):
